@@ -417,7 +417,7 @@ func genRateFinite(r *hx.RNG, where int) []string {
 	bw := r.Range(200, 600)
 	a := r.Range(50, 400)
 	inside := 2*bw + 1 + r.Intn(bw/2)
-	b := a + inside + r.Intn(200)
+	b := a + inside + 1 + r.Intn(200)
 	var rs, n int
 	switch where {
 	case 0: // starts before the throttle
@@ -426,8 +426,8 @@ func genRateFinite(r *hx.RNG, where int) []string {
 	case 1: // starts exactly at its first byte
 		rs = a
 		n = inside
-	default: // starts inside
-		rs = a + r.Intn(b-a-inside+1)
+	default: // starts STRICTLY inside
+		rs = a + 1 + r.Intn(b-a-inside)
 		n = inside
 	}
 	toks := []string{"R", fmt.Sprintf("S:%s:0", hx.HexS(rxA))}
@@ -472,6 +472,55 @@ func genIntegrationBig(r *hx.RNG, k int) []string {
 		rest = append(rest, "cr:"+hx.HexS(bad))
 	}
 	return append(toks, rest...)
+}
+
+// genUnitThrottleEdge: where the range starts relative to a throttle: at its first byte,
+// strictly inside, at its last byte, just past its end, one further -- for the last
+// finite throttle, a non-last throttle, and an open-ended one (GetCurrentThrottle sets
+// the initial bandwidth of such a response).
+func genUnitThrottleEdge(r *hx.RNG, k int) []string {
+	a1 := r.Range(5, 60)
+	b1 := a1 + r.Range(3, 80)
+	a2 := b1 + []int{0, 0, r.Range(1, 50)}[r.Intn(3)] // adjacent or with a gap
+	b2 := a2 + r.Range(3, 120)
+	bw1, bw2 := r.Range(1000000, 4000000), r.Range(4000001, 9000000)
+	toks := []string{"U", fmt.Sprintf("S:%s:%d", hx.HexS(rxA), []int{0, 9500000}[r.Intn(2)])}
+	var ta, tb int
+	switch k % 3 {
+	case 0: // the last throttle, finite end
+		toks = append(toks, fmt.Sprintf("T:%s:%d", hx.HexS(fmt.Sprintf("%d-%d", a1, b1)), bw1), fmt.Sprintf("T:%s:%d", hx.HexS(fmt.Sprintf("%d-%d", a2, b2)), bw2))
+		ta, tb = a2, b2
+	case 1: // a throttle that is not the last
+		toks = append(toks, fmt.Sprintf("T:%s:%d", hx.HexS(fmt.Sprintf("%d-%d", a2, b2)), bw2), fmt.Sprintf("T:%s:%d", hx.HexS(fmt.Sprintf("%d-%d", a1, b1)), bw1))
+		ta, tb = a1, b1
+	default: // the last throttle, open ended
+		toks = append(toks, fmt.Sprintf("T:%s:%d", hx.HexS(fmt.Sprintf("%d-%d", a1, b1)), bw1), fmt.Sprintf("T:%s:%d", hx.HexS(fmt.Sprintf("%d-", a2)), bw2))
+		ta, tb = a2, a2+r.Range(3, 120)
+	}
+	if k%4 == 0 { // the only throttle
+		toks = []string{toks[0], fmt.Sprintf("T:%s:%d", hx.HexS(fmt.Sprintf("%d-%d", a2, b2)), bw2)}
+		ta, tb = a2, b2
+	}
+	rs := []int{ta, ta + 1 + r.Intn(tb-ta-1), tb - 1, tb, tb + 1, ta - 1}[(k/3)%6]
+	toks = append(toks, fmt.Sprintf("H:%d:1:1", rs+r.Intn(20)), "|", "a0", fmt.Sprintf("o0:0:%d:%d", rs, []int{0, 7, 40}[r.Intn(3)]))
+	for j := 0; j < 2; j++ {
+		toks = append(toks, fmt.Sprintf("w0:%s", hx.Hex(r.Bytes(r.Range(1, 150)))))
+	}
+	return toks
+}
+
+// genIntegrationEdgeSlow: a real Range response through the proxy that starts STRICTLY inside
+// the last (finite) throttle, with more than two intervals' worth of bytes inside it.
+func genIntegrationEdgeSlow(r *hx.RNG) []string {
+	bw := r.Range(200, 400)
+	a := r.Range(50, 200)
+	inside := 2*bw + 1 + r.Intn(bw/2)
+	rs := a + 1 + r.Intn(100)
+	b := rs + inside + r.Intn(100)
+	ln := b + r.Intn(50) // total resource length; the response is [rs, ln)
+	url := fmt.Sprintf("http://example/a%d", r.Intn(100))
+	return []string{"I", fmt.Sprintf("S:%s:0", hx.HexS(rxA)), fmt.Sprintf("T:%s:%d", hx.HexS(fmt.Sprintf("%d-%d", a, b)), bw), "|",
+		"u:" + hx.HexS(url), fmt.Sprintf("rs:%d", rs), fmt.Sprintf("len:%d", ln), fmt.Sprintf("b:%d", r.Intn(1000000)), "ch:0"}
 }
 
 // genIntegrationSlow: proxy on a shaped listener, the shape's global bucket is
@@ -549,6 +598,15 @@ func generate(cfg *hx.Config, emit func(kind string, in []string)) {
 		}
 		emit("unit", in)
 	}
+	// 2b. range start relative to a throttle (initial bandwidth of a range response)
+	ne := 36
+	if cfg.Thorough() {
+		ne = 360
+	}
+	for k := 0; k < ne; k++ {
+		emit("edge", genUnitThrottleEdge(rng.Fork(), k))
+		cfg.Count("unit-throttle-edge")
+	}
 	// 3. proxy on a shaped listener
 	for k := 0; k < ni; k++ {
 		emit("int", genIntegration(rng.Fork()))
@@ -604,6 +662,10 @@ func generate(cfg *hx.Config, emit func(kind string, in []string)) {
 	for k := 0; k < nfin; k++ {
 		slow = append(slow, genRateFinite(rng.Fork(), k%3))
 		cfg.Count(fmt.Sprintf("rate-finite-end-where%d", k%3))
+	}
+	for k := 0; k < 2; k++ {
+		slow = append(slow, genIntegrationEdgeSlow(rng.Fork()))
+		cfg.Count("integration-range-inside-throttle")
 	}
 	nis := 2
 	if cfg.Thorough() {
